@@ -236,6 +236,10 @@ static void c15_batch(long idx, long n, uint64_t seed) {
         // A response that arrives after its request timed out poisons that connection (recorded finding); what follows in
         // the same batch on the wedged connections is a consequence of it and is attributed to it, not reported on its own.
         bool primary = false; for (auto& a : anomalies) if (std::get<0>(a) == "c15:wrong-response:after-late-response-of-timed-out-request" || std::get<0>(a) == "c15:answered-but-not-fulfilled:after-late-response-of-timed-out-request") primary = true;
+        // the same poisoning without its first symptom being visible (the request that followed the late response on that connection
+        // was itself one that times out): the server log shows a connection that got a late response and was used again afterwards
+        { std::map<int, double> poisonAt; for (auto& l : log) if (l.behaviour == B_LATE && l.answered) { auto it = poisonAt.find(l.conn); if (it == poisonAt.end() || l.at < it->second) poisonAt[l.conn] = l.at; }
+          for (auto& l : log) { auto it = poisonAt.find(l.conn); if (it != poisonAt.end() && l.at > it->second) primary = true; } }
         // Likewise a connection that the server closes after a response while requests are queued behind it or being written
         // to it (recorded finding): requests are then never sent / never settled.  Only those symptoms are attributed.
         bool serverClosed = false; for (auto& l : log) if (l.behaviour == B_CLOSE_AFTER && l.answered) serverClosed = true;
